@@ -119,10 +119,16 @@ func runC20(c *Ctx) {
 		}
 		// an in-range code always wakes the waiters: from where the code is known to be in range no return is reachable
 		// without the Cond.Broadcast call (a try-lock that gives up, a "nobody can be waiting" shortcut)
-		if fn == bcastFn {
+		{
+			opName, what, why := "(*sync.Cond).Broadcast", "an in-range code always broadcasts", "a request that arrives at that moment does not release the clients waiting for its code"
+			if fn == waitFn {
+				// ... and a client waiting for a supported code always waits for the next request with it: no return from the
+				// in-range edge without Cond.Wait (a "seen recently" shortcut releases it by a request that came before)
+				opName, what, why = "(*sync.Cond).Wait", "an in-range code always waits", "the client is released by something other than the next request with its code"
+			}
 			var barrier ssa.Instruction
 			for _, call := range w.callsInDeep(fn) {
-				if condOpName(w, fn, call) == "(*sync.Cond).Broadcast" {
+				if condOpName(w, fn, call) == opName {
 					barrier = call.(ssa.Instruction)
 					if barrier.Parent() != fn {
 						barrier = nil
@@ -159,7 +165,7 @@ func runC20(c *Ctx) {
 						}
 					}
 				}
-				c.Check(skipped == "", "R2.cond", name+"|an in-range code always broadcasts", w.Pos(barrier.Pos()), "no return is reachable from the in-range edge without Cond.Broadcast", "for a supported code the operation can return (at "+skipped+") without calling Cond.Broadcast: a request that arrives at that moment does not release the clients waiting for its code")
+				c.Check(skipped == "", "R2.cond", name+"|"+what, w.Pos(barrier.Pos()), "no return is reachable from the in-range edge without "+shortName(opName), "for a supported code the operation can return (at "+skipped+") without calling "+shortName(opName)+": "+why)
 			}
 		}
 		for _, r := range liveReturns(fn) {
